@@ -12,3 +12,7 @@ import DateutilVerif.Properties.C07
 #print axioms C07.isoYear_in_range
 #print axioms C07.parse_tzstr_render_gen
 #print axioms C07.parse_isodate_scan_render_gen
+#print axioms C07.isoparse_render_gen
+#print axioms C07.isoparse_inverts_datetime_gen
+#print axioms C07.parse_isotime_scan_render_gen
+#print axioms C07.input_kinds_equivalent
